@@ -28,19 +28,29 @@ def run(ctx):
                 "space, chunks of word_size-1 words and lengths beyond the ring; styles: write-only with drains at "
                 "generated points (blackbox), reader ops at arbitrary points, reserve/short-commit, boundary; a case is "
                 "non-trivial if old chunks were overwritten, read back, a near-capacity/full-ring/tiny chunk was "
-                "stored, or an oversize write failed; distinct by SHA1 of its op lines")
+                "stored, or an oversize write failed; distinct by SHA1 of its op lines; blackbox stream: mk SIZE / maxline N / r … / resize SIZE / dump "
+                "histories through the real blackbox target and the model (sizes around page multiples, line limits "
+                "78..4096, refused configurations, reloads, several dump moments)")
     ctx.trusted = ["Lean 4.33 kernel; axioms propext, Classical.choice, Quot.sound",
                    "tools/extract.py, tools/c2lean.py (constants and qb_rb_space_free/used/chunk_step from lib/ringbuffer.c)",
                    "harness/rb/rb_seq.c + differential comparison with `qb_ring` (model written by hand)",
                    "tools/rowgen.py / tools/ringgen.py property oracles",
+                   "harness/log/bb_print.c (clock_gettime interposed) + differential comparison with `qb_blackbox`; "
+                   "tools/bbgen.py oracle",
                    "gcc, ASan/UBSan; circular mmap = index mod 4*W"]
     ctx.assumptions = ["single writer, reader not concurrent with the writer (overwrite mode is not safe otherwise)",
                        "word_size*4 < 2^31", "sysconf page size as on this machine",
-                       "blackbox clause: proved through the ring (reserve/commit pattern of _blackbox_vlogger = "
-                       "alloc/commit ops, theorem ow_history_alloc_commit); the real target + "
-                       "qb_log_blackbox_write_to_file/print_from_file are sampled with an oracle only (no model of "
-                       "the dump format here: that is C15), and the fit bound there counts each record with its "
-                       "reservation (fixed part + function + 512)"]
+                       "blackbox clause: model of the blackbox layer (Model/Blackbox.lean: _blackbox_vlogger, "
+                       "qb_log_blackbox_open, _blackbox_reload, the SIZE / MAX_LINE_LEN configuration, "
+                       "qb_log_blackbox_write_to_file) tied by a byte-for-byte comparison of the dump files of generated "
+                       "histories (scripted clock); theorems bb_log_refines_reserve_commit, bb_history, "
+                       "bb_dump_latest_run_partial for a fixed configuration per history with max_line_length >= 78 "
+                       "(below that: defect D32, fixes/D32-…; generated only with C11_D32=1) and reservations <= size; "
+                       "qb_log_blackbox_print_from_file is the real printer (its model is C15's), the python oracle "
+                       "evaluates the blackbox sentence on its output; the fit bound counts each record with its "
+                       "reservation (33 + function name + 1 + max_line_length)",
+                       "messages of 512..max_line_length bytes with max_line_length > 512 are kept out of the "
+                       "generated stream (finding D33: stored, but rejected by the printer as corrupt)"]
     vlib.lean_prepare(ctx)
     ctx.compile_lib(sources=LIB)
     exe = ctx.compile_harness("rb/rb_seq.c")
